@@ -164,7 +164,29 @@ def build(run):
         res = check_same(plain, itg, subst_den({f: g}, 2 * f * tf), (), what="replace inside an unexpanded derivative")
         if res.status != "proved":
             return res
-        return proved("exec+z3", vcs=n + 1, sample="shape-changing mappings raise; unexpanded derivatives are expanded before replacing")
+        # ... also when the unexpanded derivative sits BELOW the root of the integrand / next to other integrals, and for bare expressions and integrals
+        # (replace substitutes "including under derivatives": refusing one of these spellings while accepting the others is not a legitimate refusal)
+        from ufl.algorithms import expand_derivatives
+        J = derivative(f * f * g * dx, f, tf)
+        spell = [("-J", lambda: -J), ("0.5*J", lambda: 0.5 * J), ("F + 2*J", lambda: f * tf * dx + 2 * J), ("J + J", lambda: J + J), ("J", lambda: J),
+                 ("integral of J", lambda: J.integrals()[0]), ("integrand of -J", lambda: (-J).integrals()[0].integrand()), ("J on ds too", lambda: J + derivative(f * f * _ufl.ds, f, tf))]
+        for nm_, mk_ in spell:
+            x_ = mk_()
+            try:
+                r_ = replace(x_, {f: g})
+            except ValueError as ex:
+                return violated(f"replace refuses {nm_} (J an unexpanded derivative) with a shape-compatible mapping: {ex}", replay={"input": nm_, "error": str(ex)}, reproduced=True, backend="exec")
+            want_ = replace(expand_derivatives(x_), {f: g})
+            items = lambda y_: ([i_.integrand() for i_ in y_.integrals()] if hasattr(y_, "integrals") else [y_.integrand()] if hasattr(y_, "integrand") else [y_])   # noqa: E731
+            got_i, want_i = items(r_), items(want_)
+            if len(got_i) != len(want_i):
+                return violated(f"replace({nm_}) has {len(got_i)} integrands, replacing in the expanded input gives {len(want_i)}", replay={"input": nm_}, reproduced=True, backend="exec")
+            for gi, wi in zip(got_i, want_i):
+                res = check_same(plain, expand_derivatives(gi), lambda w, c, env, wi=wi: den(w, wi, c, env), (), what=f"replace({nm_}, f -> g)")
+                n += 1
+                if res.status != "proved":
+                    return res
+        return proved("exec+z3", vcs=n + 1, sample="shape-changing mappings raise; unexpanded derivatives are expanded before replacing, wherever they sit")
     run.add("replace/shape-and-derivative-guards", shapes, kind="values")
 
     # ---- images that are constant on each cell, under every differential operator, for fields whose value shape differs from the geometric dimension (the
